@@ -181,8 +181,9 @@ def _is_assign_to(st, name):
     return isinstance(st, ast.Assign) and len(st.targets) == 1 and ast.unparse(st.targets[0]) == name
 
 
-def translate(repo_graph_py_source):
+def translate(repo_graph_py_source, base_edge_source=None):
     """-> (lean text, [manifest entries]); raises Untranslatable"""
+    global REL
     tree = ast.parse(repo_graph_py_source)
     defs = []  # (lean name, binders, type, body, python text, line)
 
@@ -373,6 +374,41 @@ def translate(repo_graph_py_source):
     if ast.unparse(s0.value).replace(" ", "") not in ("sum((e.calc_chi2()foreinself._edges))", "sum(e.calc_chi2()foreinself._edges)"):
         raise Untranslatable(REL, s0.lineno, "Graph.calc_chi2 is no longer the plain sum of the edges' chi2")
 
+    # ------------------------------------------------------------------ base_edge.py: numerical differentiation
+    if base_edge_source is not None:
+        defs_before = len(defs)
+        rel_saved, REL = REL, "graphslam/edge/base_edge.py"
+        try:
+            bt = ast.parse(base_edge_source)
+            be = _find(bt.body, lambda n: isinstance(n, ast.ClassDef) and n.name == "BaseEdge", "class BaseEdge")
+            epsdef = _find(be.body, lambda s: _is_assign_to(s, "_NUMERICAL_DIFFERENTIATION_EPSILON"), "_NUMERICAL_DIFFERENTIATION_EPSILON", be.lineno)
+            if not (isinstance(epsdef.value, ast.Constant) and epsdef.value.value == 1e-6):
+                raise Untranslatable(REL, epsdef.lineno, "the forward-difference step is no longer 1e-6")
+            cj = method(be, "calc_jacobians")
+            body = [ast.unparse(s).replace(" ", "") for s in cj.body if not (isinstance(s, ast.Expr) and isinstance(s.value, ast.Constant))]
+            if body != ["err=self.calc_error()", "return[self._calc_jacobian(err,v.pose.COMPACT_DIMENSIONALITY,i)fori,vinenumerate(self.vertices)]"]:
+                raise Untranslatable(REL, cj.lineno, "BaseEdge.calc_jacobians no longer has the shape the NumJac model mirrors")
+            nj = method(be, "_calc_jacobian")
+            nb = [s for s in nj.body if not (isinstance(s, ast.Expr) and isinstance(s.value, ast.Constant))]
+            shape_ok = len(nb) == 4 and isinstance(nb[2], ast.For) and isinstance(nb[3], ast.Return)
+            if shape_ok:
+                head = [ast.unparse(s).replace(" ", "") for s in nb[:2]]
+                shape_ok = head == ["jacobian=np.zeros(err.shape+(dim,))", "p0=self.vertices[vertex_index].pose.copy()"] and ast.unparse(nb[3]) == "return jacobian"
+                lp = nb[2]
+                shape_ok = shape_ok and ast.unparse(lp.target) == "d" and ast.unparse(lp.iter) == "range(dim)" and len(lp.body) == 5 and not lp.orelse
+            if shape_ok:
+                lb = [ast.unparse(s).replace(" ", "") for s in lp.body]
+                shape_ok = lb[0] == "delta_pose=np.zeros(dim)" and lb[1] == "delta_pose[d]=self._NUMERICAL_DIFFERENTIATION_EPSILON" and lb[2] == "self.vertices[vertex_index].pose+=delta_pose" \
+                    and lb[4] == "self.vertices[vertex_index].pose=p0.copy()" and isinstance(lp.body[3], ast.Assign) and ast.unparse(lp.body[3].targets[0]).replace(" ", "") == "jacobian[:,d]"
+            if not shape_ok:
+                raise Untranslatable(REL, nj.lineno, "BaseEdge._calc_jacobian no longer has the perturb / difference / restore shape the NumJac model mirrors")
+            fd = Sc({"self.calc_error()": "errd", "err": "err0", "self._NUMERICAL_DIFFERENTIATION_EPSILON": "eps"})
+            emit("numjac_fd_entry", "{E : Type} [ScalarF E] (eps err0 errd : E)", "E", fd.ev(lp.body[3].value), lp.body[3])
+        finally:
+            REL = rel_saved
+        for d in defs[defs_before:]:
+            d["file"] = "graphslam/edge/base_edge.py"
+
     # ------------------------------------------------------------------ render
     txt = "import GraphSlam.Core.Scalar\n\n/-! GENERATED by tools/translate/py2lean_graph.py from /repo/graphslam/graph.py — do not edit.\n\n"
     txt += "Decision expressions of `Graph.optimize`, `_Chi2GradientHessian.update`, `Graph._calc_chi2_gradient_hessian` and\n`Graph._initialize` as found in the current source.  `GraphSlam/Props/Tie/GraphPy.lean` proves that the hand-written models\nuse exactly these expressions. -/\n\n"
@@ -381,8 +417,8 @@ def translate(repo_graph_py_source):
     for d in defs:
         sha = hashlib.sha256(d["py"].encode()).hexdigest()
         pyline = d["py"].splitlines()[0][:140].replace("-/", "- /")
-        txt += "/-- `%s:%d`  `%s`  sha256 %s -/\n" % (REL, d["line"], pyline, sha[:16])
+        txt += "/-- `%s:%d`  `%s`  sha256 %s -/\n" % (d.get("file", REL), d["line"], pyline, sha[:16])
         txt += "def %s %s : %s :=\n  %s\n\n" % (d["lean"], d["binders"], d["typ"], d["body"])
-        man.append(dict(group="GraphPy", lean=d["lean"], file=REL, line=d["line"], end_line=d["end_line"], sha256=sha, py=dict(kind="graph-snippet", name=d["lean"]), params=[], ret=["snippet"], needsF=False, doc_shape=None, note=None))
+        man.append(dict(group="GraphPy", lean=d["lean"], file=d.get("file", REL), line=d["line"], end_line=d["end_line"], sha256=sha, py=dict(kind="graph-snippet", name=d["lean"]), params=[], ret=["snippet"], needsF=False, doc_shape=None, note=None))
     txt += "end GraphSlam.Gen\n"
     return txt, man
